@@ -1,25 +1,53 @@
 """C19 -- finite-difference derivatives are exact on low-degree polynomials.
 
 R19.1  exact-rational moment conditions of every stencil row (tables folded from the AST)
-R19.2  bound safety of the row selection (`offset` statements of helpers.derivative)
+R19.2  bound safety of the row selection (the row selector of helpers.derivative as a function of the distance to the bounds)
 R19.3  pairing: position/coefficient tables, common selector, power of the step, stencil axis
 R19.4  EffectivePotential.derivT bounds the temperature derivative below by 0
+
+How the code is recognised (spelling independent): helpers.derivative / gradient / hessian are *evaluated* by `_Ex19`, a term
+extractor with decided numeric comparisons (n and order are fixed per run) that keeps table accesses as TABV(table, selectors...).
+The rules decode the returned term  sum_k coeff_k * f(pos_k):  the positions are the first argument of the call of the
+differentiated function (parameter 0), the coefficients are its cofactor under the sum; the step is the public parameter `dx`
+(or `scale` when dx is None), the row selector is the non-trivial entry of the table selector.  Locals (`offset`, `dxFloat`,
+`pos`, `coeff`, `temp`, ...), temporaries, extracted helpers, keyword arguments and the nesting of the n / order branches never
+appear in what is compared.  Module-level temporaries holding (parts of) a table are inlined before the table is folded.
 """
 from __future__ import annotations
 
 import ast
+import copy
 from fractions import Fraction
 from math import factorial
 
 import sympy as sp
 
-from ..core import AnchorMissing, Check, Undecided, dotted, kwarg, own_nodes, src, calls_in
+from ..core import AnchorMissing, Check, Undecided, dotted, kwarg, src, calls_in
 from ..fold import fold
-from ..terms import Extractor
+from ..nf import Ctx
+from ..terms import Extractor, Opaque, _Ret
 
 LEVEL = "proof"
 TABLES = ["FIRST_DERIV_COEFF", "SECOND_DERIV_COEFF", "FIRST_DERIV_POS", "SECOND_DERIV_POS",
           "HESSIAN_POS", "HESSIAN_COEFF"]
+
+TABV, GETI, RESHAPE, EXPAND, TRANSPOSE, SUMA, ONES, IDENT = (sp.Function(x) for x in ("TABV", "GETI", "RESHAPE", "EXPAND", "TRANSPOSE", "SUMA", "ONES", "IDENT"))
+LINEAR = (GETI, RESHAPE, EXPAND, TRANSPOSE)       # f(a, shape...) is linear in a
+COLON, NONE, DOTS, TSEL = sp.Symbol(":"), sp.Symbol("None"), sp.Symbol("..."), sp.Symbol("T")
+
+
+def _fn(t, f) -> bool:
+    return isinstance(t, sp.Basic) and getattr(t, "func", None) == f
+
+
+def _inline_globals(node: ast.expr, globs: dict, depth: int = 0) -> ast.expr:
+    """table expression with module-level temporaries (names bound once at module level) replaced by their definitions"""
+    class R(ast.NodeTransformer):
+        def visit_Name(self, x):
+            if isinstance(x.ctx, ast.Load) and x.id in globs and depth < 6:
+                return _inline_globals(globs[x.id], globs, depth + 1)
+            return x
+    return R().visit(copy.deepcopy(node))
 
 
 def _tables(chk: Check) -> dict:
@@ -28,7 +56,7 @@ def _tables(chk: Check) -> dict:
     for t in TABLES:
         if t not in m.globals:
             raise AnchorMissing(f"helpers.{t} not found")
-        out[t] = fold(m.globals[t])
+        out[t] = fold(_inline_globals(m.globals[t], {k: v for k, v in m.globals.items() if k != t}))
         chk.touch(f"helpers:{t}")
     return out
 
@@ -89,75 +117,363 @@ def r19_1(chk: Check, tabs: dict) -> None:
     chk.floor("R19.1", 30)
 
 
-def _offset_statements(chk: Check):
-    """Parse the `offset` statements of helpers.derivative:
-       offset -= x + m*dx > bounds[1]      -> ('up', m, -1, order-guard)
-       offset += x - m*dx < bounds[0]      -> ('lo', m, +1, order-guard)"""
-    f = chk.src.func("helpers:derivative")
-    chk.touch(f.name)
-    stmts = []
+# ---------------------------------------------------------------- the evaluator
+class _Loop:
+    """outcome of break / continue"""
 
-    def mult_of(e: ast.expr):
-        # x + k*dx   or x - k*dx   or x + dx
-        if not isinstance(e, ast.BinOp) or not isinstance(e.op, (ast.Add, ast.Sub)):
-            return None
-        sign = 1 if isinstance(e.op, ast.Add) else -1
-        r = e.right
-        if isinstance(r, ast.Name):
-            return sign, 1
-        if isinstance(r, ast.BinOp) and isinstance(r.op, ast.Mult):
-            for a, b in ((r.left, r.right), (r.right, r.left)):
-                if isinstance(a, ast.Constant) and isinstance(a.value, (int, float)) and isinstance(b, ast.Name):
-                    return sign, a.value
-        return None
 
-    def visit(body, order_guard):
-        for st in body:
-            if isinstance(st, ast.If):
-                g = order_guard
-                t = st.test
-                if (isinstance(t, ast.Compare) and isinstance(t.left, ast.Name) and t.left.id == "order"
-                        and len(t.ops) == 1 and isinstance(t.ops[0], ast.Eq) and isinstance(t.comparators[0], ast.Constant)):
-                    g = t.comparators[0].value
-                    visit(st.body, g)
-                    if st.orelse:
-                        visit(st.orelse, ("not", g))
+class _Ex19(Extractor):
+    """terms.Extractor for the three stencil functions: comparisons of numbers / strings are decided, a table access is
+    TABV(table, selector, ...) with the selector entries evaluated (not their text), subscripts of other values are GETI(v, entries),
+    methods of values keep their receiver (x.reshape(s) -> RESHAPE(x, s); x.tolist() -> x), np.sum -> SUMA(a, axis),
+    np.expand_dims -> EXPAND(a, axes), np.full(s, v) -> v * ONES(s), loops run their body once, what cannot be expressed
+    becomes a fresh symbol."""
+
+    def __init__(self, source):
+        # any private function of helpers is an extracted helper: look through it
+        super().__init__(source, inline=lambda name: name.split(":")[0] == "helpers" and name.split(":")[1].startswith("_"))
+        self._k = 0
+
+    def fresh(self):
+        self._k += 1
+        return sp.Symbol(f"havoc{self._k}__", real=True)
+
+    def soft(self, n, env, depth):
+        try:
+            v = self.expr(n, env, depth)
+        except Undecided:
+            return self.fresh()
+        return self.term(v)
+
+    def term(self, v):
+        if isinstance(v, sp.Basic):
+            return v
+        if isinstance(v, (list, tuple)):
+            return sp.Tuple(*[self.term(x) for x in v])
+        if isinstance(v, Opaque):
+            return sp.Symbol("str_" + v.text)
+        if v is None:
+            return NONE
+        return self.fresh()
+
+    # ---- statements
+    def stmt(self, st, env, guards, depth):
+        if isinstance(st, (ast.For, ast.AsyncFor, ast.While)):
+            env = dict(env)
+            self._rebind_closures(env)
+            if not isinstance(st, ast.While):
+                for t in ast.walk(st.target):
+                    if isinstance(t, ast.Name):
+                        env[t.id] = self.fresh()
+            return [(e, g, None if isinstance(o, _Loop) else o) for e, g, o in self.block(st.body, env, guards, depth)]
+        if isinstance(st, (ast.Break, ast.Continue)):
+            return [(env, guards, _Loop())]
+        try:
+            return super().stmt(st, env, guards, depth)
+        except Undecided:
+            if isinstance(st, ast.Return):
+                return [(env, guards, _Ret(self.fresh()))]
+            env = dict(env)
+            self._rebind_closures(env)
+            tg = st.targets if isinstance(st, ast.Assign) else ([st.target] if isinstance(st, (ast.AnnAssign, ast.AugAssign)) else [])
+            for t in tg:
+                for x in ([t] if not isinstance(t, (ast.Tuple, ast.List)) else t.elts):
+                    while isinstance(x, (ast.Subscript, ast.Starred)):
+                        x = x.value
+                    d = dotted(x)
+                    if d is not None:
+                        env[d] = self.fresh()
+            return [(env, guards, None)]
+
+    # ---- expressions
+    def index(self, v, i):
+        if isinstance(v, sp.Basic) and not isinstance(v, sp.Symbol):
+            return GETI(v, sp.Tuple(sp.Integer(i)))      # unpacking `lo, hi = t` is t[0], t[1]
+        return super().index(v, i)
+
+    def expr(self, n, env, depth=0):
+        if isinstance(n, ast.Name) and n.id in TABLES and n.id not in env:
+            return TABV(sp.Symbol(n.id))
+        if isinstance(n, ast.Dict) and n.keys and all(isinstance(k, ast.Constant) for k in n.keys):
+            return {k.value: self.expr(v, env, depth) for k, v in zip(n.keys, n.values)}      # a dispatch table {1: ..., 2: ...}
+        if isinstance(n, ast.JoinedStr) and len(n.values) == 1 and isinstance(n.values[0], ast.FormattedValue) \
+                and n.values[0].conversion == -1 and n.values[0].format_spec is None:
+            return sp.Function("str")(self.term(self.expr(n.values[0].value, env, depth)))       # f"{order}" is str(order)
+        if isinstance(n, ast.Attribute):
+            d, base = dotted(n), dotted(n.value)
+            if (d is None or (d not in env and base in env)) and n.attr in ("shape", "size", "ndim", "real"):
+                v = self.expr(n.value, env, depth)
+                if n.attr == "real":
+                    return v
+                return sp.Function("attr_" + n.attr)(self.term(v))
+        return super().expr(n, env, depth)
+
+    def compare(self, n, env, depth):
+        if len(n.ops) == 1 and isinstance(n.ops[0], (ast.Eq, ast.NotEq, ast.Lt, ast.LtE, ast.Gt, ast.GtE)):
+            try:
+                a, b = self.expr(n.left, env, depth), self.expr(n.comparators[0], env, depth)
+            except Undecided:
+                a = b = None
+            if isinstance(a, sp.Basic) and isinstance(b, sp.Basic) and a.is_number and b.is_number and a.is_real and b.is_real:
+                r = {ast.Eq: a == b, ast.NotEq: a != b, ast.Lt: a < b, ast.LtE: a <= b, ast.Gt: a > b, ast.GtE: a >= b}[type(n.ops[0])]
+                return sp.true if bool(r) else sp.false
+            if isinstance(a, Opaque) and isinstance(b, Opaque) and isinstance(n.ops[0], (ast.Eq, ast.NotEq)):
+                return sp.true if (a.text == b.text) == isinstance(n.ops[0], ast.Eq) else sp.false
+        return super().compare(n, env, depth)
+
+    def subscript(self, n, env, depth):
+        v = self.expr(n.value, env, depth)
+        sl = n.slice
+        if isinstance(v, dict):
+            k = self.expr(sl, env, depth)
+            key = int(k) if isinstance(k, sp.Integer) else (k.text if isinstance(k, Opaque) else None)
+            if key in v:
+                return v[key]
+            raise Undecided(f"dispatch table without the key {src(sl)}")
+        elts = list(sl.elts) if isinstance(sl, ast.Tuple) else [sl]
+        sel = []
+        for e in elts:
+            if isinstance(e, ast.Slice):
+                if e.lower is None and e.upper is None and e.step is None:
+                    sel.append(COLON)
                 else:
-                    visit(st.body, order_guard)
-                    visit(st.orelse, order_guard)
+                    sel.append(sp.Symbol(":".join("" if b is None else str(self.soft(b, env, depth)) for b in (e.lower, e.upper, e.step))))
+            elif isinstance(e, ast.Constant) and e.value is None:
+                sel.append(NONE)
+            elif isinstance(e, ast.Constant) and e.value is Ellipsis:
+                sel.append(DOTS)
+            else:
+                sel.append(self.soft(e, env, depth))
+        if _fn(v, TABV):
+            return TABV(*v.args, sp.Tuple(*sel))
+        if isinstance(v, (tuple, list)) and len(sel) == 1 and isinstance(sel[0], sp.Integer):
+            return v[int(sel[0])]
+        if all(s in (COLON, NONE, DOTS) for s in sel):
+            return v        # broadcasting only
+        if isinstance(v, (sp.Basic, tuple, list)):
+            return GETI(self.term(v), sp.Tuple(*sel))
+        raise Undecided(f"subscript {src(n)[:60]}")
+
+    def call(self, n, env, depth):
+        d = dotted(n.func)
+        f = n.func
+        if d is not None and d not in env:
+            parts = d.split(".")
+            short, isnp = parts[-1], parts[0] in ("np", "numpy")
+            if isnp and short == "transpose" and len(n.args) == 1 and not n.keywords:
+                v = self.expr(n.args[0], env, depth)
+                return TABV(*v.args, TSEL) if _fn(v, TABV) else TRANSPOSE(self.term(v))
+            if isnp and short == "sum" and n.args:
+                ax = kwarg(n, "axis", 1)
+                return SUMA(self.term(self.expr(n.args[0], env, depth)), self.soft(ax, env, depth) if ax is not None else NONE)
+            if isnp and short == "expand_dims" and kwarg(n, "a", 0) is not None and kwarg(n, "axis", 1) is not None:
+                return EXPAND(self.term(self.expr(kwarg(n, "a", 0), env, depth)), self.soft(kwarg(n, "axis", 1), env, depth))
+            if isnp and short == "full" and kwarg(n, "shape", 0) is not None and kwarg(n, "fill_value", 1) is not None:
+                val = self.expr(kwarg(n, "fill_value", 1), env, depth)
+                if isinstance(val, sp.Basic):
+                    return val * ONES(self.soft(kwarg(n, "shape", 0), env, depth))
+            if isnp and short == "square" and len(n.args) == 1 and not n.keywords:
+                v = self.expr(n.args[0], env, depth)
+                if isinstance(v, sp.Basic):
+                    return v**2
+            if isnp and short == "ones" and n.args:
+                return ONES(self.soft(n.args[0], env, depth))
+            if isnp and short in ("identity", "eye") and len(n.args) == 1 and not n.keywords:
+                return IDENT(self.soft(n.args[0], env, depth))
+        if isinstance(f, ast.Attribute) and f.attr in ("reshape", "tolist", "flatten", "ravel"):
+            b = dotted(f.value)
+            if b is None or b in env:
+                recv = self.expr(f.value, env, depth)
+                if f.attr == "tolist":
+                    return recv
+                if isinstance(recv, sp.Basic):
+                    shape = [self.soft(a, env, depth) for a in n.args]
+                    return RESHAPE(recv, *shape)
+        return super().call(n, env, depth)
+
+
+def _unwrap(t):
+    """t without linear shape-only wrappers"""
+    while isinstance(t, sp.Basic) and any(_fn(t, w) for w in LINEAR) and not _fn(t, GETI):
+        t = t.args[0]
+    return t
+
+
+def _deg(e, var):
+    """degree of homogeneity of e in `var` (a symbol or an atom), None when e is not homogeneous"""
+    if not isinstance(e, sp.Basic) or not e.has(var):
+        return sp.Integer(0)
+    if e == var:
+        return sp.Integer(1)
+    if isinstance(e, sp.Mul):
+        ds = [_deg(a, var) for a in e.args]
+        return None if any(d is None for d in ds) else sum(ds, sp.Integer(0))
+    if isinstance(e, sp.Pow):
+        d = _deg(e.base, var)
+        if d is None or e.exp.has(var) or not e.exp.is_number:
+            return None
+        return d * e.exp
+    if isinstance(e, sp.Add):
+        ds = {_deg(a, var) for a in e.args}
+        return ds.pop() if len(ds) == 1 else None
+    if any(_fn(e, w) for w in LINEAR) and not any(a.has(var) for a in e.args[1:]):
+        return _deg(e.args[0], var)
+    return None
+
+
+def _tabs(t):
+    return sorted({a for a in t.atoms(sp.Function) if _fn(a, TABV)}, key=str) if isinstance(t, sp.Basic) else []
+
+
+def _tabname(a):
+    return a.args[0].name
+
+
+class Stencil:
+    """decoded  SUMA(coeff * f(pos, ...), axis)"""
+
+    def __init__(self, value, fname: str):
+        self.ok, self.why = False, ""
+        self.pos = self.coeff = self.axis = None
+        v = value
+        while _fn(v, RESHAPE) or _fn(v, TRANSPOSE):
+            v = v.args[0]
+        if not _fn(v, SUMA):
+            self.why = f"the result is not a sum over an axis: {str(v)[:80]}"
+            return
+        prod, self.axis = v.args
+        fa = [a for a in prod.atoms(sp.Function) if isinstance(a, sp.core.function.AppliedUndef) and a.func.__name__ == fname]
+        if not fa or len({a.args[0] for a in fa}) != 1:
+            self.why = "the summand does not evaluate the function at one array of positions"
+            return
+        facs = sp.Mul.make_args(prod)
+        ff = [x for x in facs if any(x.has(a) for a in fa)]
+        if len(ff) != 1 or _unwrap(ff[0]) not in fa:
+            self.why = "the summand is not coefficients * f(positions)"
+            return
+        self.pos = _unwrap(fa[0].args[0])
+        self.coeff = sp.Mul(*[x for x in facs if x is not ff[0]])
+        self.ok = True
+
+
+def _run(chk: Check, fname: str, fixed: dict):
+    """[Stencil] of every normal path of helpers.<fname> with the given parameters fixed"""
+    f = chk.src.func(f"helpers:{fname}")
+    chk.touch(f.name)
+    prm = f.params()
+    if not prm:
+        raise AnchorMissing(f"helpers.{fname}: no parameters")
+    ex = _Ex19(chk.src)
+    out = []
+    for p in ex.paths(f, dict(fixed)):
+        if p.raised is not None or not isinstance(p.value, sp.Basic):
+            continue
+        st = Stencil(p.value, prm[0])
+        # the early exit `n == 0 -> f(x)` does not exist for n in (1, 2); a path that returns something else is reported
+        out.append(st)
+    if not out:
+        raise Undecided(f"helpers.{fname}: no path returns a term for {fixed}")
+    return f, ex, out
+
+
+def _step_ok(st: Stencil, x, step, n, postab, coftab):
+    """positions are x + table * step (degree 1), coefficients table / step**n.
+    A table access counts as one atom: its row selector compares x +- m*step with the bounds, which is not a dependence on the scale of the step"""
+    tp, tc = _tabs(st.pos), _tabs(st.coeff)
+    atom = {a: sp.Dummy(f"tab{i}") for i, a in enumerate(tp + [c for c in tc if c not in tp])}
+    pos, coeff = st.pos.xreplace(atom), st.coeff.xreplace(atom)
+    terms = sp.Add.make_args(sp.expand(pos))
+    free = sp.Add(*[t for t in terms if not t.has(step)])
+    rest = [t for t in terms if t.has(step)]
+    dpos = _deg(sp.Add(*rest), step) if _unwrap(free) == x and rest else None
+
+    def linear(ts, tabs):
+        """every term has total degree 1 in the table atoms"""
+        for t in ts:
+            ds = [_deg(t, atom[a]) for a in tabs]
+            if any(d is None for d in ds) or sum(ds, sp.Integer(0)) != 1:
+                return False
+        return bool(ts) and bool(tabs)
+    lin_p = linear(rest, tp)
+    dco = _deg(coeff, step)
+    lin_c = linear(list(sp.Add.make_args(sp.expand(coeff))), tc)
+    return dpos, lin_p, dco, lin_c
+
+
+def _offset_rows(sel_term, x, step, bounds):
+    """decode the row selector  zeros - [x + m step > bounds[1]] + [x - m step < bounds[0]] ...  into statements"""
+    stmts = []
+    for t in sp.Add.make_args(sp.expand(sel_term)):
+        c, a = t.as_coeff_Mul()
+        name = getattr(a.func, "__name__", "")
+        if name in ("np.zeros_like", "np.zeros") or a == 0:
+            continue
+        if name not in ("GT", "GE", "LT", "LE") or not (c.is_Integer and c != 0):
+            raise Undecided(f"row selector term not understood: {t}")
+        l, r = a.args
+        if l.has(bounds) and not r.has(bounds):
+            l, r = r, l
+            name = {"GT": "LT", "LT": "GT", "GE": "LE", "LE": "GE"}[name]
+        r = _unwrap(r)
+        if not (_fn(r, GETI) and r.args[0].has(bounds) and len(r.args[1]) == 1 and r.args[1][0] in (sp.Integer(0), sp.Integer(1), sp.Integer(-1), sp.Integer(-2))):
+            raise Undecided(f"row selector bound not understood: {t}")
+        idx = int(r.args[1][0]) % 2
+        m = sp.simplify((l - x) / step)
+        if not m.is_number or m == 0:
+            raise Undecided(f"row selector probe not understood: {t}")
+        for _ in range(abs(int(c))):
+            stmts.append(dict(op=+1 if c > 0 else -1, dirsign=1 if m > 0 else -1, mult=abs(m), cmp={"GT": "Gt", "GE": "GtE", "LT": "Lt", "LE": "LtE"}[name], bound=idx))
+    return stmts
+
+
+def _row_selector(tab):
+    """the non-trivial entry of a table selector and whether it selects rows: TABV(T, (key,), 'T', (':', sel)) or TABV(T, (key,), (sel, ':'))"""
+    transposed = False
+    found = None
+    for s in tab.args[2:]:
+        if s == TSEL:
+            transposed = not transposed
+            continue
+        if not isinstance(s, sp.Tuple):
+            return None
+        for i, e in enumerate(s):
+            if e in (COLON, NONE, DOTS):
                 continue
-            if isinstance(st, ast.AugAssign) and isinstance(st.target, ast.Name) and st.target.id == "offset":
-                v = st.value
-                if not (isinstance(v, ast.Compare) and len(v.ops) == 1):
-                    raise Undecided(f"offset statement not understood: {src(st)}")
-                mm = mult_of(v.left)
-                cmpop = v.ops[0]
-                comp = v.comparators[0]
-                # bounds index
-                idx = None
-                for x in ast.walk(comp):
-                    if isinstance(x, ast.Subscript) and isinstance(x.slice, ast.Constant):
-                        idx = x.slice.value
-                if mm is None or idx is None:
-                    raise Undecided(f"offset statement not understood: {src(st)}")
-                stmts.append(dict(node=st, op=+1 if isinstance(st.op, ast.Add) else -1, dirsign=mm[0], mult=mm[1],
-                                  cmp=type(cmpop).__name__, bound=idx, order=order_guard))
-    visit(f.node.body, None)
-    return f, stmts
+            if found is not None:
+                return None
+            ax = i if not any(x == NONE for x in s[:i]) else None
+            found = (e, ax, transposed)
+    if found is None:
+        return None
+    e, ax, tr = found
+    return e if (ax == 1 and tr) or (ax == 0 and not tr) else None
 
 
 def r19_2(chk: Check, tabs: dict) -> None:
-    f, stmts = _offset_statements(chk)
-    if len(stmts) < 4:
-        raise AnchorMissing("helpers.derivative: fewer than 4 offset statements")
-    W = f.where()
+    fi = chk.src.func("helpers:derivative")
+    prm = fi.params()
+    if len(prm) < 8:
+        raise AnchorMissing("helpers.derivative(f, x, n, order, bounds, epsilon, scale, dx, args) not found")
+    W = fi.where()
+    total = 0
     for kind, n in (("FIRST", 1), ("SECOND", 2)):
         P = tabs[f"{kind}_DERIV_POS"]
         for key in sorted(P):
             order = int(key)
             rows = P[key]
             nrows = len(rows)
-            active = [s for s in stmts if s["order"] is None or s["order"] == order]
+            f, ex, sts = _run(chk, "derivative", {"n": sp.Integer(n), "order": sp.Integer(order)})
+            x, step, bounds = ex.sym(prm[1]), ex.sym("dx"), ex.sym("bounds")
+            sels = set()
+            for st in sts:
+                if not st.ok:
+                    raise Undecided(f"helpers.derivative(n={n}, order={order}): {st.why}")
+                for tab in _tabs(st.pos):
+                    sels.add(_row_selector(tab))
+            if len(sels) != 1 or None in sels:
+                raise Undecided(f"helpers.derivative(n={n}, order={order}): the row selector of the position table was not found")
+            active = _offset_rows(sels.pop(), x, step, bounds)
+            total += len(active)
             reach = max(abs(p) for row in rows for p in row)
             # scenarios: d steps available on one side (0..reach), unlimited on the other
             for side in ("up", "lo"):
@@ -190,298 +506,196 @@ def r19_2(chk: Check, tabs: dict) -> None:
                     chk.ob("R19.2", W,
                            f"{kind} order {key}: point {d} step(s) from the {'upper' if side=='up' else 'lower'} bound never evaluates outside it",
                            ok, detail, key=f"safe|{kind}|{key}|{side}|{d}", how="finite-enumeration")
+    if total < 12:
+        raise AnchorMissing("helpers.derivative: fewer than 4 bound tests in the row selection")
     chk.floor("R19.2", 20)
 
 
-def _table_chain(node: ast.AST):
-    """If node is a Subscript/Attribute chain rooted at a table Name return (table, chain-text, firstsub)"""
-    n = node
-    while isinstance(n, (ast.Subscript, ast.Attribute)):
-        n = n.value
-    if isinstance(n, ast.Name) and n.id in TABLES:
-        return n.id
+def _key_ok(tab, order: int) -> bool:
+    """first selector of a table access is the order key: str(order) or the literal"""
+    if len(tab.args) < 2 or not isinstance(tab.args[1], sp.Tuple) or len(tab.args[1]) != 1:
+        return False
+    k = tab.args[1][0]
+    return k == sp.Function("str")(sp.Integer(order)) or k == sp.Symbol(f"str_{order}")
+
+
+def _first_index(tab):
+    """first entry of the selector after the order key"""
+    for s in tab.args[2:]:
+        if isinstance(s, sp.Tuple) and len(s):
+            return s[0]
+        return None
     return None
-
-
-class _TabReplace(ast.NodeTransformer):
-    """replace maximal table chains by plain names TAB_<table>_<k>; remember them"""
-
-    def __init__(self):
-        self.found: list[tuple[str, str, ast.AST]] = []
-
-    def generic_visit(self, node):
-        return super().generic_visit(node)
-
-    def visit_Subscript(self, node):
-        t = _table_chain(node)
-        if t is not None:
-            name = f"TAB_{t}_{len(self.found)}"
-            self.found.append((name, t, node))
-            return ast.copy_location(ast.Name(id=name, ctx=ast.Load()), node)
-        return self.generic_visit(node)
-
-    def visit_Attribute(self, node):
-        t = _table_chain(node)
-        if t is not None:
-            name = f"TAB_{t}_{len(self.found)}"
-            self.found.append((name, t, node))
-            return ast.copy_location(ast.Name(id=name, ctx=ast.Load()), node)
-        return self.generic_visit(node)
-
-
-def _selector(node: ast.AST) -> str:
-    """text of the subscripts applied to the table (without the table name)"""
-    s = " ".join(src(node).split())
-    for t in TABLES:
-        if s.startswith(t):
-            return s[len(t):]
-    return s
-
-
-def _dx_degree(expr: sp.Expr, dxsyms: list[sp.Symbol]) -> object:
-    lam = sp.Symbol("lam__", positive=True)
-    # dx[..., axisList] -> an independent step symbol of the same family
-    gi = [e for e in expr.atoms(sp.core.function.AppliedUndef)
-          if e.func.__name__ == "getitem" and e.args[0] in dxsyms]
-    rep = {e: sp.Symbol(f"{e.args[0].name}__{e.args[1]}", positive=True) for e in gi}
-    expr = expr.xreplace(rep)
-    dxsyms = [d for d in dxsyms if expr.has(d)] + list(rep.values())
-    sub = {d: lam * d for d in dxsyms}
-    scaled = expr.subs(sub, simultaneous=True)
-    # getitem(dx, idx) wrappers keep dx inside -> substitution reaches them as well
-    ratio = sp.simplify(scaled / expr)
-    p = sp.Wild("p", exclude=[lam])
-    m = ratio.match(lam**p)
-    if ratio == 1:
-        return 0
-    if m is not None and not m[p].free_symbols:
-        return m[p]
-    return None
-
-
-def _walk_assigns(fnode: ast.AST):
-    """(guard-stack, Assign) for assignments in the function body"""
-    out = []
-
-    def visit(body, guards):
-        for st in body:
-            if isinstance(st, ast.If):
-                visit(st.body, guards + [(st.test, True)])
-                visit(st.orelse, guards + [(st.test, False)])
-            elif isinstance(st, ast.Assign):
-                out.append((guards, st))
-            elif isinstance(st, (ast.With, ast.For, ast.While)):
-                visit(st.body, guards)
-    visit(fnode.body, [])
-    return out
-
-
-def _n_of_guards(guards) -> object:
-    n = None
-    for t, pol in guards:
-        if (pol and isinstance(t, ast.Compare) and isinstance(t.left, ast.Name) and t.left.id == "n"
-                and isinstance(t.ops[0], ast.Eq) and isinstance(t.comparators[0], ast.Constant)):
-            n = t.comparators[0].value
-    return n
 
 
 def r19_3(chk: Check) -> None:
-    ex = Extractor(chk.src)
-    # ---- derivative(): per n-branch, pos and coeff statements -------------
-    f = chk.src.func("helpers:derivative")
-    chk.touch(f.name)
-    uses: dict = {}
-    for guards, st in _walk_assigns(f.node):
-        tr = _TabReplace()
-        val = tr.visit(ast.fix_missing_locations(ast.parse(src(st.value), mode="eval").body))
-        if not tr.found:
-            continue
-        n = _n_of_guards(guards)
-        env = {"__module__": "helpers", "__class__": None}
-        term = ex.expr(val, env)
-        for name, tab, node in tr.found:
-            uses.setdefault(n, []).append(dict(tab=tab, sel=_selector(node), term=term, tabsym=name, stmt=st))
-    if not uses or None in uses and len(uses) == 1:
-        raise AnchorMissing("helpers.derivative: no n-guarded table uses found")
+    # ---- derivative(): per n ------------------------------------------------
+    fi = chk.src.func("helpers:derivative")
+    prm = fi.params()
     for n, want in ((1, "FIRST"), (2, "SECOND")):
-        us = uses.get(n, [])
-        pos = [u for u in us if u["tab"].endswith("_POS")]
-        cof = [u for u in us if u["tab"].endswith("_COEFF")]
-        W = f.where(us[0]["stmt"]) if us else f.where()
+        res = dict(count=True, tables=True, selector=True, pos=True, coeff=True, axis=True)
+        shown = []
+        runs = 0
+        for order in (2, 4):
+            for dxgiven in (True, False):
+                fixed = {"n": sp.Integer(n), "order": sp.Integer(order)}
+                if not dxgiven:
+                    fixed["dx"] = None
+                f, ex, sts = _run(chk, "derivative", fixed)
+                x, step = ex.sym(prm[1]), ex.sym("dx" if dxgiven else "scale")
+                for st in sts:
+                    runs += 1
+                    if not st.ok:
+                        res = {k: False for k in res}
+                        shown.append(st.why)
+                        continue
+                    tp, tc = _tabs(st.pos), _tabs(st.coeff)
+                    pos = [a for a in tp + tc if _tabname(a).endswith("_POS")]
+                    cof = [a for a in tp + tc if _tabname(a).endswith("_COEFF")]
+                    shown.append(f"pos={[_tabname(a) for a in pos]} coeff={[_tabname(a) for a in cof]}")
+                    if not (len(pos) == 1 and len(cof) == 1 and tp == pos and tc == cof):
+                        res = {k: False for k in res}
+                        continue
+                    p, c = pos[0], cof[0]
+                    res["tables"] = res["tables"] and _tabname(p) == f"{want}_DERIV_POS" and _tabname(c) == f"{want}_DERIV_COEFF"
+                    res["selector"] = res["selector"] and p.args[1:] == c.args[1:] and _key_ok(p, order) and _row_selector(p) is not None
+                    dpos, lin_p, dco, lin_c = _step_ok(st, x, step, n, p, c)
+                    res["pos"] = res["pos"] and dpos == 1 and lin_p
+                    res["coeff"] = res["coeff"] and dco == -n and lin_c
+                    res["axis"] = res["axis"] and st.axis == 0
+        W = fi.where()
         chk.ob("R19.3", W, f"derivative(): branch n=={n} uses exactly one position and one coefficient table",
-               len(pos) == 1 and len(cof) == 1, f"pos={[u['tab'] for u in pos]} coeff={[u['tab'] for u in cof]}",
-               key=f"deriv|n{n}|count")
-        if len(pos) != 1 or len(cof) != 1:
+               res["count"] and runs >= 4, "; ".join(sorted(set(shown)))[:300], key=f"deriv|n{n}|count")
+        if not res["count"]:
             continue
-        p, c = pos[0], cof[0]
-        chk.ob("R19.3", W, f"derivative(): branch n=={n} uses the {want}_DERIV tables",
-               p["tab"] == f"{want}_DERIV_POS" and c["tab"] == f"{want}_DERIV_COEFF", f"{p['tab']}, {c['tab']}",
+        chk.ob("R19.3", W, f"derivative(): branch n=={n} uses the {want}_DERIV tables", res["tables"], "; ".join(sorted(set(shown)))[:300],
                key=f"deriv|n{n}|tables")
-        chk.ob("R19.3", W, f"derivative(): branch n=={n} indexes both tables with the same selector",
-               p["sel"] == c["sel"], f"{p['sel']}  vs  {c['sel']}", key=f"deriv|n{n}|selector")
-        dx = [s for s in (p["term"].free_symbols | c["term"].free_symbols) if s.name.startswith("dx")]
-        x = ex.sym("x")
-        dpos = _dx_degree(p["term"] - x, dx)
-        dcof = _dx_degree(c["term"], dx)
+        chk.ob("R19.3", W, f"derivative(): branch n=={n} indexes both tables with the same selector (order key, one row per point, stencil along axis 0)",
+               res["selector"] and res["axis"], key=f"deriv|n{n}|selector")
         chk.ob("R19.3", W, f"derivative(): branch n=={n}: positions are x + table*dx (degree 1 in the step)",
-               dpos == 1, f"degree {dpos}: {p['term']}", key=f"deriv|n{n}|posdeg", how="cas-proof(homogeneity)")
+               res["pos"], key=f"deriv|n{n}|posdeg", how="cas-proof(homogeneity)")
         chk.ob("R19.3", W, f"derivative(): branch n=={n}: coefficients are divided by dx**{n}",
-               dcof == -n, f"degree {dcof}: {c['term']}", key=f"deriv|n{n}|coeffdeg", how="cas-proof(homogeneity)")
+               res["coeff"], key=f"deriv|n{n}|coeffdeg", how="cas-proof(homogeneity)")
     # ---- gradient() and hessian() ----------------------------------------
     for fname, postab, coftab, n, kaxis in (("gradient", "FIRST_DERIV_POS", "FIRST_DERIV_COEFF", 1, -2),
                                             ("hessian", "HESSIAN_POS", "HESSIAN_COEFF", 2, -3)):
         g = chk.src.func(f"helpers:{fname}")
-        chk.touch(g.name)
-        found = []
-        for guards, st in _walk_assigns(g.node):
-            tr = _TabReplace()
-            val = tr.visit(ast.fix_missing_locations(ast.parse(src(st.value), mode="eval").body))
-            if not tr.found:
-                continue
-            found.append((st, tr, val))
-        tabs_used = [(t, node, st) for st, tr, _ in found for _, t, node in tr.found]
+        gp = g.params()
+        res = dict(tables=True, key=True, rows=True, pos=True, coeff=True, axis=True, pair=True)
+        used, rows_seen, detail = set(), [], []
+        runs = 0
+        for order in (2, 4):
+            for dxgiven in (True, False):
+                fixed = {"order": sp.Integer(order)}
+                if not dxgiven:
+                    fixed["dx"] = None
+                _, ex, sts = _run(chk, fname, fixed)
+                x, step = ex.sym(gp[1]), ex.sym("dx" if dxgiven else "scale")
+                for st in sts:
+                    runs += 1
+                    if not st.ok:
+                        res = {k: False for k in res}
+                        detail.append(st.why)
+                        continue
+                    tp, tc = _tabs(st.pos), _tabs(st.coeff)
+                    used |= {_tabname(a) for a in tp + tc}
+                    res["tables"] = res["tables"] and {_tabname(a) for a in tp} == {postab} and {_tabname(a) for a in tc} == {coftab}
+                    res["key"] = res["key"] and all(_key_ok(a, order) for a in tp + tc)
+                    prow = sorted(str(_first_index(a)) for a in tp)
+                    crow = sorted(str(_first_index(a)) for a in tc)
+                    rows_seen.append((prow, crow))
+                    if fname == "gradient":
+                        res["rows"] = res["rows"] and prow == ["0"] and crow == ["0"] and len(tc) == 1
+                    else:
+                        res["rows"] = res["rows"] and prow == ["0", "1"] and len(tc) == 1 and _first_index(tc[0]) == COLON
+                    dpos, lin_p, dco, lin_c = _step_ok(st, x, step, n, postab, coftab)
+                    res["pos"] = res["pos"] and dpos == 1 and lin_p
+                    res["coeff"] = res["coeff"] and dco == -n and lin_c
+                    res["axis"] = res["axis"] and st.axis == kaxis
+                    if fname == "hessian":
+                        okp, d_ = _hessian_pairing(st, step)
+                        res["pair"] = res["pair"] and okp
+                        detail.append(d_)
         W = g.where()
         chk.ob("R19.3", W, f"{fname}(): uses {postab} for positions and {coftab} for coefficients only",
-               {t for t, _, _ in tabs_used} == {postab, coftab}, str(sorted({t for t, _, _ in tabs_used})),
-               key=f"{fname}|tables")
-        # same order key for all
-        keys = set()
-        rows = {}
-        for t, node, st in tabs_used:
-            chain = []
-            nn = node
-            while isinstance(nn, (ast.Subscript, ast.Attribute)):
-                chain.append(nn)
-                nn = nn.value
-            chain.reverse()
-            if chain and isinstance(chain[0], ast.Subscript):
-                keys.add(" ".join(src(chain[0].slice).split()))
-            if len(chain) > 1 and isinstance(chain[1], ast.Subscript):
-                sl = chain[1].slice
-                first = sl.elts[0] if isinstance(sl, ast.Tuple) else sl
-                rows.setdefault(t, []).append(src(first))
-                # stencil axis from the selector: position of ':' among trailing entries
-                elts = sl.elts if isinstance(sl, ast.Tuple) else [sl]
-                colon = [i for i, e in enumerate(elts) if isinstance(e, ast.Slice)]
-                if t.endswith("_POS") or t == "HESSIAN_COEFF" or t.endswith("_COEFF"):
-                    pass
-        chk.ob("R19.3", W, f"{fname}(): all table accesses use the same order key", len(keys) == 1, str(keys),
-               key=f"{fname}|orderkey")
+               res["tables"] and runs >= 4, str(sorted(used)), key=f"{fname}|tables")
+        chk.ob("R19.3", W, f"{fname}(): all table accesses use the same order key", res["key"], key=f"{fname}|orderkey")
         if fname == "gradient":
             chk.ob("R19.3", W, "gradient(): positions and coefficients both take row 0 (the central stencil)",
-                   rows.get(postab) == ["0"] and rows.get(coftab) == ["0"], str(rows), key="gradient|row0")
+                   res["rows"], str(rows_seen[:2]), key="gradient|row0")
         else:
             chk.ob("R19.3", W, "hessian(): position rows 0 and 1 are both used exactly once",
-                   sorted(rows.get(postab, [])) == ["0", "1"], str(rows), key="hessian|rows")
-        # degrees
-        env = {"__module__": "helpers", "__class__": None}
-        x = ex.sym("x")
-        for st, tr, val in found:
-            try:
-                term = ex.expr(val, env)
-            except Undecided as e:
-                chk.ob("R19.3", g.where(st), f"{fname}(): term extraction of {src(st.targets[0])}", None, str(e))
-                continue
-            dx = [s for s in term.free_symbols if s.name.startswith("dx")]
-            is_pos = any(t.endswith("_POS") for _, t, _ in tr.found)
-            # np.expand_dims(a, ax) -> treat as a (strip)
-            term2 = term.replace(lambda e: isinstance(e, sp.core.function.AppliedUndef) and e.func.__name__ == "np.expand_dims",
-                                 lambda e: e.args[0])
-            if is_pos:
-                d = _dx_degree(sp.expand(term2 - x), dx)
-                chk.ob("R19.3", g.where(st), f"{fname}(): positions are x + table*dx (degree 1 in the step)", d == 1,
-                       f"degree {d}", key=f"{fname}|posdeg", how="cas-proof(homogeneity)")
-            else:
-                d = _dx_degree(term2, dx)
-                chk.ob("R19.3", g.where(st), f"{fname}(): coefficients carry dx**-{n}", d == -n, f"degree {d}",
-                       key=f"{fname}|coeffdeg", how="cas-proof(homogeneity)")
-        # stencil axis: the final np.sum(..., axis=k)
-        sums = [c for c in calls_in(g.node, "sum") if dotted(c.func) in ("np.sum", "numpy.sum")]
-        axes = []
-        for c in sums:
-            a = kwarg(c, "axis", 1)
-            if a is not None:
-                try:
-                    axes.append(ast.literal_eval(a))
-                except Exception:
-                    axes.append(src(a))
-        chk.ob("R19.3", W, f"{fname}(): the stencil axis summed over is {kaxis}", axes == [kaxis], str(axes),
-               key=f"{fname}|sumaxis")
-    # hessian axis pairing: identity[xAxisList, None, :] with POS row 0 ; dx[..., xAxisList] expanded at (-3,-1)
-    h = chk.src.func("helpers:hessian")
-    pair_pos = {}
-    pair_dx = {}
-    for n_ in own_nodes(h.node):
-        if isinstance(n_, ast.BinOp) and isinstance(n_.op, ast.Mult):
-            # HESSIAN_POS[..][r, ...] * np.identity(..)[<sel>]
-            l, r = n_.left, n_.right
-            if _table_chain(l) == "HESSIAN_POS" and isinstance(r, ast.Subscript) and call_is(r.value, "identity"):
-                row = _first_index(l)
-                elts = r.slice.elts if isinstance(r.slice, ast.Tuple) else [r.slice]
-                for i, e in enumerate(elts):
-                    if isinstance(e, ast.Name):
-                        pair_pos[row] = (e.id, i - len(elts))  # axis relative to end (incl. variable axis)
-        if isinstance(n_, ast.Call) and dotted(n_.func) == "np.expand_dims" and len(n_.args) == 2:
-            a0 = n_.args[0]
-            if isinstance(a0, ast.Subscript) and isinstance(a0.slice, ast.Tuple):
-                names = [e.id for e in a0.slice.elts if isinstance(e, ast.Name)]
-                try:
-                    ax = ast.literal_eval(n_.args[1])
-                except Exception:
-                    ax = None
-                if names and ax is not None:
-                    axs = (ax,) if isinstance(ax, int) else tuple(ax)
-                    rank = 1 + len(axs)
-                    free = [i for i in range(-rank, 0) if i not in axs]
-                    pair_dx[names[0]] = free[0] if len(free) == 1 else None
-    # positions array has a trailing variable axis: axis a (rel. end) -> a+1 in the result
-    ok = True
-    detail = []
-    for row, (lst, ax) in sorted(pair_pos.items()):
-        res_ax = ax + 1
-        detail.append(f"row {row}: {lst} on result axis {res_ax}; dx[{lst}] on axis {pair_dx.get(lst)}")
-        if pair_dx.get(lst) != res_ax:
-            ok = False
-    chk.ob("R19.3", h.where(), "hessian(): each axis list sits on the same result axis in positions and in the step-size denominator",
-           ok and len(pair_pos) == 2 and len(pair_dx) == 2, "; ".join(detail), key="hessian|axispairing",
-           how="axis-algebra")
+                   res["rows"], str(rows_seen[:2]), key="hessian|rows")
+        chk.ob("R19.3", W, f"{fname}(): positions are x + table*dx (degree 1 in the step)", res["pos"],
+               key=f"{fname}|posdeg", how="cas-proof(homogeneity)")
+        chk.ob("R19.3", W, f"{fname}(): coefficients carry dx**-{n}", res["coeff"],
+               key=f"{fname}|coeffdeg", how="cas-proof(homogeneity)")
+        chk.ob("R19.3", W, f"{fname}(): the stencil axis summed over is {kaxis}", res["axis"], key=f"{fname}|sumaxis")
+        if fname == "hessian":
+            chk.ob("R19.3", W, "hessian(): each axis list sits on the same result axis in positions and in the step-size denominator",
+                   res["pair"], "; ".join(sorted(set(detail)))[:300], key="hessian|axispairing", how="axis-algebra")
     chk.floor("R19.3", 14)
 
 
-def call_is(node: ast.AST, short: str) -> bool:
-    return isinstance(node, ast.Call) and (dotted(node.func) or "").split(".")[-1] == short
-
-
-def _first_index(node: ast.AST):
-    chain = []
-    nn = node
-    while isinstance(nn, (ast.Subscript, ast.Attribute)):
-        chain.append(nn)
-        nn = nn.value
-    chain.reverse()
-    if len(chain) > 1 and isinstance(chain[1], ast.Subscript):
-        sl = chain[1].slice
-        first = sl.elts[0] if isinstance(sl, ast.Tuple) else sl
-        if isinstance(first, ast.Constant):
-            return first.value
-    return None
+def _hessian_pairing(st: Stencil, step):
+    """identity[L, None, :] with POS row r ; step[..., L] expanded so that L sits on the same result axis"""
+    pair_pos, pair_dx = {}, {}
+    for t in sp.Add.make_args(sp.expand(st.pos)):
+        tb = _tabs(t)
+        ids = [a for a in t.atoms(sp.Function) if _fn(a, GETI) and _fn(a.args[0], IDENT)]
+        if not tb:
+            continue
+        if len(tb) != 1 or len(ids) != 1:
+            return False, f"position term not understood: {str(t)[:80]}"
+        sel = ids[0].args[1]
+        ax = [(e, i - len(sel)) for i, e in enumerate(sel) if e not in (COLON, NONE, DOTS)]
+        if len(ax) != 1:
+            return False, "identity selector not understood"
+        pair_pos[str(_first_index(tb[0]))] = ax[0]       # axis relative to the end (incl. the variable axis)
+    for a in st.coeff.atoms(sp.Function):
+        if _fn(a, EXPAND) and a.args[0].has(step):
+            inner = a.args[0]
+            axes = a.args[1]
+            axs = tuple(int(k) for k in axes) if isinstance(axes, sp.Tuple) and all(k.is_Integer for k in axes) else ((int(axes),) if axes.is_Integer else None)
+            if not (_fn(inner, GETI) and axs is not None):
+                return False, "step-size denominator not understood"
+            lst = [e for e in inner.args[1] if e not in (COLON, NONE, DOTS)]
+            rank = 1 + len(axs)
+            free = [i for i in range(-rank, 0) if i not in axs]
+            if len(lst) != 1 or len(free) != 1:
+                return False, "step-size denominator not understood"
+            pair_dx[lst[0]] = free[0]
+    ok = len(pair_pos) == 2 and len(pair_dx) == 2
+    detail = []
+    # positions array has a trailing variable axis: axis a (rel. end) -> a+1 in the result
+    for row, (lst, ax) in sorted(pair_pos.items()):
+        res_ax = ax + 1
+        detail.append(f"row {row}: result axis {res_ax}; its step on axis {pair_dx.get(lst)}")
+        if pair_dx.get(lst) != res_ax:
+            ok = False
+    return ok, "; ".join(detail)
 
 
 def r19_4(chk: Check) -> None:
     f = chk.src.func("effectivePotential:EffectivePotential.derivT")
     chk.touch(f.name)
-    calls = [c for c in calls_in(f.node, "derivative")]
+    calls = [c for c in calls_in(f.node, "derivative") if dotted(c.func) in ("derivative", "helpers.derivative")]
     if not calls:
         raise AnchorMissing("EffectivePotential.derivT does not call helpers.derivative")
+    cx = Ctx(chk.src, f)
     c = calls[0]
     b = kwarg(c, "bounds", 4)
+    b = cx.resolve(b) if b is not None else None
     ok = False
-    if isinstance(b, ast.Tuple) and len(b.elts) == 2:
+    if isinstance(b, (ast.Tuple, ast.List)) and len(b.elts) == 2:
         lo, hi = b.elts
-        ok = isinstance(lo, ast.Constant) and lo.value == 0 and dotted(hi) in ("np.inf", "numpy.inf", "math.inf")
+        ok = isinstance(lo, ast.Constant) and not isinstance(lo.value, bool) and isinstance(lo.value, (int, float)) and lo.value == 0 \
+            and (dotted(hi) in ("np.inf", "numpy.inf", "math.inf") or (isinstance(hi, ast.Call) and dotted(hi.func) == "float" and len(hi.args) == 1
+                                                                       and isinstance(hi.args[0], ast.Constant) and hi.args[0].value in ("inf", "+inf")))
     chk.ob("R19.4", f.where(c), "derivT passes bounds=(0, inf): the potential is never evaluated at negative temperature",
            ok, src(b) if b is not None else "no bounds argument", key="derivT|bounds")
     n = kwarg(c, "n", 2)
+    n = cx.resolve(n) if n is not None else None
     chk.ob("R19.4", f.where(c), "derivT takes the first derivative (n=1)",
            n is None or (isinstance(n, ast.Constant) and n.value == 1), src(n) if n else "default", key="derivT|n")
     # the tables are not written anywhere in the package
